@@ -632,6 +632,22 @@ pub fn run(session: &Session) -> i32 {
     if !session.stopped() {
         session.run_tapes(&C05, session.tier.of(6_000, 200_000), 600, 0);
     }
+    // the result of a program that several threads of one process run on a shared cell is a function of
+    // the program too: N increments add N whatever the schedule (the orbit, bit and append workloads of C16)
+    {
+        let reps = session.tier.of(3, 12);
+        for case in [
+            json!({"kind": "orbit", "op": "+=", "x0": 0, "k": 1, "threads": 8, "iters": 3000, "reps": reps}),
+            json!({"kind": "orbit", "op": "-=", "x0": 0, "k": 3, "threads": 4, "iters": 3000, "reps": reps}),
+            json!({"kind": "bits", "op": "|=", "threads": 8, "iters": 7, "reps": reps * 20}),
+            json!({"kind": "append", "cell": "array", "threads": 8, "iters": 800, "reps": reps}),
+            json!({"kind": "append", "cell": "string", "threads": 8, "iters": 500, "reps": reps}),
+        ] {
+            if !session.stopped() {
+                session.run_one(&crate::props::c16::C16, &case);
+            }
+        }
+    }
     // after unrelated work: the hand-written programs one after the other on one thread
     if !session.stopped() {
         let mut texts: Vec<String> = STATEFUL.iter().map(|t| t.to_string()).collect();
